@@ -48,7 +48,7 @@ ASSUMPTIONS = [
     "unix_time / boot_sig are the virtual clock's second at the time of the "
     "call",
 ]
-FLOORS = {"boot_arguments_by_position": 200, "boot_script": 40, "boot_checked": 500, "config_area_compared": 500,
+FLOORS = {"image_file_rewritten_between_boots": 200, "boot_arguments_by_position": 200, "boot_script": 40, "boot_checked": 500, "config_area_compared": 500,
           "after_options_boot": 150, "multi_block_image": 300, "image_with_repeated_blocks": 150,
           "returned_structs_checked": 500, "controller_boot": 40}
 SHARDS = {"quick": 16, "thorough": 64}
@@ -264,7 +264,11 @@ def run(case, ctx):
                             bytes((hi + 1 - lo) * 1024)
                 image = bytes(img)[:len(image)]
                 ctx.hit("image_with_repeated_blocks")
-            path = os.path.join(tmp, "img%d.boot" % bi)
+            one_name = (len(case["boots"]) + case["boots"][0]["size"]) % 3 == 0
+            if one_name and bi:
+                # the image is rebuilt under the same file name between boots
+                ctx.hit("image_file_rewritten_between_boots")
+            path = os.path.join(tmp, "img%d.boot" % (0 if one_name else bi))
             with open(path, "wb") as f:
                 f.write(image)
             if b.get("name_form") == "path":
